@@ -141,6 +141,9 @@ def gen_model(G, inS, depth, top=True):
             parts.append(gen_model(G, sub, depth - 1, top=False))
         else:
             parts.append(gen_leaf(G, sub, archs=["fcn", "fcn", "harm", "poly", "qres", "qres", "ritz"]))
+    if len(parts) > 1 and rng.random() < 0.03 and "out" in parts[0] and "out" in parts[1] and parts[1]["arch"] != "norm":
+        # two parts answering in the same variable: `Parallel.__init__` must refuse (model: `valid = false`)
+        parts[1]["out"] = [list(parts[0]["out"][0])] + parts[1]["out"][1:]
     return dict(arch="par", parts=parts)
 
 
@@ -152,7 +155,7 @@ def gen_case(rng, idx):
     # the variables the model declares (in its own order) are only known after construction; data are per name
     names = sorted({v for v, _ in inS})
     dims = {v: d for v, d in inS}
-    coords = {v: [[rng.randint(-512, 512) for _ in range(dims[v])] for _ in range(n)] for v in names}
+    coords = {v: [[rng.randint(-160, 160) for _ in range(dims[v])] for _ in range(n)] for v in names}
     perm = names[:]
     rng.shuffle(perm)
     shapes = [s for s in ([n], [1, n], [n, 1], [2, n // 2], [n // 2, 2], [2, n // 4, 2], [3, n // 3], [n // 4, 2, 2]) if _prod(s) == n and len(s) > 1]
@@ -415,7 +418,7 @@ def parse_reply(rep):
 
 def close_rows(A, B, rtol=RTOL, slack=None):
     """|a-b| <= rtol*(1+max|values|) + slack[row]; slack = what the implementation's own output moves under a
-    1e-12 relative perturbation of the input (ill-conditioned rows: cubes followed by sin, ...)"""
+    rounding-level perturbation of the input (see `sensitivity`)"""
     if len(A) != len(B) or any(len(a) != len(b) for a, b in zip(A, B)):
         return False
     flat = [abs(x) for r in A + B for x in r if x == x and abs(x) != float("inf")]
@@ -444,25 +447,57 @@ def same_out(a, b, rtol=RTOL, shape=True, slack=None, kinds=True):
     return a.space == b.space and (a.shape == b.shape or not shape) and close_rows(a.rows, b.rows, rtol, slack)
 
 
-EPS = 2.0 ** -26
+EPS = 2.0 ** -44
 
 
 def sensitivity(torch, model, pts, base=None):
-    """per row: 1e-4 * |model(x(1+eps)+eps) - model(x)| with eps = 2^-26, i.e. the effect of a perturbation of about
-    1e-12; inf where that cannot be evaluated"""
+    """per row: 8 * max over two sign patterns of |model(x*(1 +- eps) +- eps) - model(x)| with eps = 2^-44 (about 256 ulp):
+    what rounding-level noise in the input does to the implementation's own output.  Cubes followed by sin/quadratic
+    layers reach magnitudes where one ulp of an intermediate value is a visible change of the output; such rows get a
+    large slack (counted as ill-conditioned), well-conditioned rows a negligible one.  inf where it cannot be evaluated."""
     base = base or call(torch, model, pts)
     n = len(base.rows) if base.ok else 0
-    try:
-        pert = call(torch, model, type(pts)(pts.as_tensor * (1 + EPS) + EPS, pts.space))
-    except Exception:   # noqa
-        return [float("inf")] * n
-    if not (base.ok and pert.ok) or len(pert.rows) != n:
-        return [float("inf")] * n
-    out = []
-    for a, b in zip(base.rows, pert.rows):
-        d = [abs(x - y) for x, y in zip(a, b)]
-        out.append(float("inf") if any(x != x or x == float("inf") for x in d) else 1e-4 * max(d + [0.0]))
+    if not base.ok:
+        return []
+    t = pts.as_tensor
+    out = [0.0] * n
+    for k in (1, 2):
+        g = torch.Generator().manual_seed(1000 + k)
+        s1 = torch.randint(0, 2, t.shape, generator=g).to(t.dtype) * 2 - 1
+        s2 = torch.randint(0, 2, t.shape, generator=g).to(t.dtype) * 2 - 1
+        try:
+            pert = call(torch, model, type(pts)(t * (1 + EPS * s1) + EPS * s2, pts.space))
+        except Exception:   # noqa
+            return [float("inf")] * n
+        if not pert.ok or len(pert.rows) != n:
+            return [float("inf")] * n
+        for i, (a, b) in enumerate(zip(base.rows, pert.rows)):
+            d = [abs(x - y) for x, y in zip(a, b)]
+            out[i] = float("inf") if any(x != x or x == float("inf") for x in d) else max(out[i], 8.0 * max(d + [0.0]))
     return out
+
+
+WILD = 1e6
+
+
+def magnitude(torch, model, pts):
+    """largest absolute value any sub-module of the model produces on `pts` (forward hooks of torch's public API)"""
+    box = [0.0]
+
+    def hook(_mod, _inp, out):
+        t = getattr(out, "as_tensor", out)
+        if isinstance(t, torch.Tensor) and t.numel():
+            v = t.detach().abs().max().item()
+            box[0] = float("inf") if v != v else max(box[0], v)
+    handles = [m.register_forward_hook(hook) for m in model.modules()]
+    try:
+        model(pts)
+    except Exception:   # noqa
+        box[0] = float("inf")
+    finally:
+        for h in handles:
+            h.remove()
+    return box[0]
 
 
 def finite(o):
@@ -561,11 +596,17 @@ def run_case(case):
         cr.counts.append("base:" + ("ok" if base.ok else base.err))
         pts_own, _ = mk_points(tp, torch, own, dims, coords, n)
         slack = sensitivity(torch, model, pts_own, base) if base.ok else None
+        wild = base.ok and magnitude(torch, model, pts_own) > WILD
+        if wild:
+            # beyond ~1e6 torch's vectorised sin/pow kernels and their scalar tails (batch of 1) are not the same
+            # function any more; values of such a case are not compared at all (acceptance, space and shape still are)
+            slack = [float("inf")] * len(base.rows)
+            cr.counts.append("wild-magnitude-case")
         cr.slack = slack
+        cr.nontrivial = base.ok and n >= 2 and finite(base) and not wild
         if slack:
             big = 1.0 + max([abs(x) for r in base.rows for x in r if x == x and abs(x) != float("inf")] + [0.0])
-            cr.counts.append(("ill-conditioned-rows", sum(1 for x in slack if x > 1e-3 * big)))
-        cr.nontrivial = base.ok and n >= 2 and finite(base)
+            cr.counts.append(("ill-conditioned-rows", sum(1 for x in slack if x > 1e-3 * big and not wild)))
         if base.ok and not finite(base):
             cr.counts.append("nonfinite-output")
         desc = dict(model=spec, torch_seed=case["seed"])
@@ -575,6 +616,9 @@ def run_case(case):
             pts, rows = mk_points(tp, torch, order, d2, c2, n)
             o = call(torch, model, pts)
             cr.counts.append(f"{name}:{'accepted' if o.ok else o.err}")
+            if o.ok:   # its own conditioning (the data are not those of the base presentation)
+                o.slack = ([float("inf")] * len(o.rows) if magnitude(torch, model, pts) > WILD
+                           else sensitivity(torch, model, pts, o))
             if tok:
                 cr.lines.append(f"apply {tok} {pts_tok(order, d2, rows, [n])}")
                 cr.tags.append(("apply:" + name, o))
@@ -583,6 +627,8 @@ def run_case(case):
                 cr.fails.append((f"input without the required variable '{lacking}' ({name}) was accepted",
                                  dict(desc, presented_variables=order, required=inS, rows=rows[:3], output=o.brief())))
 
+        if not base.ok and spec["arch"] in ("seq", "par") and n > 0:
+            structure(tp, torch, cr, model, spec, pts_own, desc, case, [0.0] * n)
         if base.ok and finite(base):
             # ---- same named data, other variable order
             o = outs["perm"]
@@ -605,7 +651,8 @@ def run_case(case):
                                      dict(desc, rows_taken=idx, coords=_coords(case), in_batch=want.brief(), alone=o.brief())))
             # ---- structure: Sequential = composition by name, Parallel = join of the parts
             pts, _ = mk_points(tp, torch, own, dims, coords, n)
-            structure(tp, torch, cr, model, spec, pts, desc, case, slack)
+            if not wild:
+                structure(tp, torch, cr, model, spec, pts, desc, case, slack)
     return cr
 
 
@@ -631,7 +678,7 @@ def structure(tp, torch, cr, model, spec, pts, desc, case, slack=None):
     if a not in ("seq", "par"):
         return
     whole = call(torch, model, pts)
-    if not whole.ok or not finite(whole):
+    if whole.ok and not finite(whole):
         return
     parts = list(zip(list(model.models), spec["parts"]))
     def rng_order(names):
@@ -658,12 +705,16 @@ def structure(tp, torch, cr, model, spec, pts, desc, case, slack=None):
             structure(tp, torch, cr, m, s, reorder(tp, torch, cur, want), desc, case)
             cur = r1
         comp = canon(torch, cur)
-        if not same_out(comp, whole, slack=slack):
+        if not whole.ok:
+            cr.fails.append(("Sequential rejects an input on which the composition of its parts (by variable name) is defined",
+                             dict(desc, sequential=whole.brief(), composition=comp.brief(), input=canon(torch, pts).brief())))
+        elif not same_out(comp, whole, slack=slack):
             cr.fails.append(("Sequential(m1..mk)(p) differs from mk(..m1(p)) composed by variable name",
                              dict(desc, sequential=whole.brief(), composition=comp.brief(), input=canon(torch, pts).brief())))
     else:
-        named = whole.named()
+        named = whole.named() if whole.ok else None
         expect_space = []
+        part_outs = []
         for k, (m, s) in enumerate(parts):
             want = [v for v in m.input_space.keys()]
             if not set(want) <= set(pts.space.keys()):
@@ -673,12 +724,19 @@ def structure(tp, torch, cr, model, spec, pts, desc, case, slack=None):
             if not o.ok:
                 return
             expect_space += o.space
+            part_outs.append(o)
+            if named is None:
+                continue
             for v, rows in o.named().items():
                 if v not in named or not close_rows(rows, named[v], slack=slack):
                     cr.fails.append((f"Parallel: output variable '{v}' is not what part {k} gives on its own input variables {want}",
                                      dict(desc, part=s, parallel=whole.brief(), part_output=o.brief(), input=canon(torch, pts).brief())))
             structure(tp, torch, cr, m, s, sub, desc, case)
-        if expect_space != whole.space:
+        if not whole.ok:
+            if parts and len({v for v, _ in expect_space}) == len(expect_space):
+                cr.fails.append(("Parallel rejects an input although every part accepts its own input variables picked by name",
+                                 dict(desc, parallel=whole.brief(), part_outputs=[o.brief() for o in part_outs], input=canon(torch, pts).brief())))
+        elif expect_space != whole.space:
             cr.fails.append(("Parallel: output space is not the product of the parts' output spaces in order",
                              dict(desc, parallel_space=whole.space, parts=expect_space)))
 
@@ -739,7 +797,7 @@ def judge(rep, cr, replies):
                 rep.disagree("input/output space of the composed model: drivers/C08.lean `spaces` vs model.input_space/output_space", case, want, reply)
         elif tag.startswith("apply:"):
             m = parse_reply(reply)
-            if not same_out(ref, m, slack=getattr(cr, "slack", None), kinds=False):
+            if not same_out(ref, m, slack=getattr(ref, "slack", None) or getattr(cr, "slack", None), kinds=False):
                 rep.disagree(f"forward pass ({tag[6:]} presentation): drivers/C08.lean `apply` (TPV.Net.Model.apply) vs model(points)",
                              dict(spec=case["spec"], seed=case["seed"], idx=case["idx"], presentation=tag[6:]), ref.brief(), m.brief())
         elif tag == "normq":
